@@ -110,12 +110,47 @@ func fitCapacity(c capacity, hist []hop) (capacity, uint64) {
 	case "fit-values-only":
 		c.nodes, c.vals = 0, 4*maxLeaf
 	}
-	if c.nodes != 0 && c.nodes < ws {
-		c.class = "tiny"
-	} else if c.class == "tiny" {
-		c.class = "fit" // not below the working set: never filed under the tiny family
-	}
+	c.class = classOf(c.set, c.nodes, c.vals, ws, c.name)
 	return c, ws
+}
+
+// classOf is the single rule that maps a configured capacity Capacity(N, V) to its class
+// (ws = 2D+4 is the working set of one operation in nodes):
+//
+//	not configured        default
+//	N == 0 && V == 0      unlimited
+//	0 < N < ws            tiny   (candidate for the family cache-below-working-set)
+//	otherwise, V > 0      fit / fit2 / fitv: finite value capacity, so clean leaves get evicted
+//	                      (candidate for the family value-cache-eviction)
+//	otherwise (V == 0)    fitn
+func classOf(set bool, n, v, ws uint64, name string) string {
+	switch {
+	case !set:
+		return "default"
+	case n == 0 && v == 0:
+		return "unlimited"
+	case n > 0 && n < ws:
+		return "tiny"
+	case v > 0 && n == 0:
+		return "fitv"
+	case v > 0 && name == "fit2":
+		return "fit2"
+	case v > 0:
+		return "fit"
+	}
+	return "fitn"
+}
+
+// familyOf returns the known-finding family a failure under this capacity class is a candidate
+// for. Membership additionally requires that the same history passes with Capacity(0,0), see report.
+func familyOf(class string) string {
+	switch class {
+	case "tiny":
+		return "c02/cache-below-working-set/"
+	case "fit", "fit2", "fitv":
+		return "c02/value-cache-eviction/"
+	}
+	return ""
 }
 
 // routeSpec describes one route; everything needed to replay it.
@@ -273,8 +308,8 @@ func runCase(i int) {
 			res.ok = false
 		}
 		if f != nil && !strings.HasPrefix(f.Sig, "harness/") {
-			report(i, set, ref, spec, f, func(h []hop) *failure {
-				_, g := runHistory(spec, h, false, false)
+			report(i, set, ref, spec, f, func(sp *routeSpec, h []hop) *failure {
+				_, g := runHistory(sp, h, false, false)
 				return g
 			})
 		}
@@ -300,7 +335,7 @@ func runCase(i int) {
 			run.Count("route/writelog-replay-once", 1)
 			run.Count("route/writelog-replay-commit-each", 1)
 			if f := replayCheck(spec, nil, res.writeLogs, res.model); f != nil {
-				report(i, set, ref, spec, f, func(h []hop) *failure { return replayCheck(spec, h, nil, nil) })
+				report(i, set, ref, spec, f, func(sp *routeSpec, h []hop) *failure { return replayCheck(sp, h, nil, nil) })
 			}
 		}
 	}
@@ -595,8 +630,10 @@ func treeOptions(spec *routeSpec) []mkvs.Option {
 
 // failure describes why a history failed on a route.
 type failure struct {
-	Sig    string   `json:"signature"`
-	Coarse string   `json:"symptom_class,omitempty"`
+	Sig    string `json:"signature"`
+	Coarse string `json:"symptom_class,omitempty"`
+	// Raw is the signature the failure has when it does not qualify for a family.
+	Raw    string   `json:"unclassified_signature,omitempty"`
 	What   string   `json:"what"`
 	Step   int      `json:"step"`
 	RootA  string   `json:"root_a,omitempty"`
@@ -625,20 +662,15 @@ func runHistory(spec *routeSpec, hist []hop, count, keepDB bool) (res routeResul
 	tag := spec.Backend + "/cap-" + spec.cap.class
 	// Failures under a finite value capacity / a capacity below the working set of one
 	// operation are grouped into one signature family each (by symptom only).
-	family := ""
-	switch spec.cap.class {
-	case "tiny":
-		family = "c02/cache-below-working-set/"
-	case "fit", "fit2", "fitv":
-		family = "c02/value-cache-eviction/"
-	}
+	family := familyOf(spec.cap.class)
 	defer func() {
 		if p := recover(); p != nil {
-			sig := "panic/" + curOp + "/" + tag
+			raw := "panic/" + curOp + "/" + tag
+			sig := raw
 			if family != "" {
 				sig = family + "panic"
 			}
-			f = &failure{Sig: sig, Coarse: "panic", What: fmt.Sprintf("panic in %s (route %s, step %d): %v", curOp, spec.Name, step, p),
+			f = &failure{Sig: sig, Raw: raw, Coarse: "panic", What: fmt.Sprintf("panic in %s (route %s, step %d): %v", curOp, spec.Name, step, p),
 				Step: step, Detail: fmt.Sprintf("%v\n%s", p, debug.Stack()), At: lab.HexPairs(model)}
 		}
 		if cdb != nil {
@@ -659,13 +691,14 @@ func runHistory(spec *routeSpec, hist []hop, count, keepDB bool) (res routeResul
 		}
 	}()
 	fail := func(op string, err error) *failure {
-		sig := "c02/route-error/" + op + "/" + tag + "/" + errClass(err)
+		raw := "c02/route-error/" + op + "/" + tag + "/" + errClass(err)
+		sig := raw
 		if family != "" {
 			sig = family + "error"
 		} else if spec.Backend == lab.BackendNop && errors.Is(err, dbApi.ErrNodeNotFound) {
 			sig = "c02/nop-db-lost-node/" + classifyLostNode(hist[:step+1])
 		}
-		return &failure{Sig: sig, Coarse: "error", What: fmt.Sprintf("%s failed in route %s at step %d: %v", op, spec.Name, step, err),
+		return &failure{Sig: sig, Raw: raw, Coarse: "error", What: fmt.Sprintf("%s failed in route %s at step %d: %v", op, spec.Name, step, err),
 			Step: step, Detail: err.Error(), At: lab.HexPairs(model)}
 	}
 
@@ -734,11 +767,12 @@ func runHistory(spec *routeSpec, hist []hop, count, keepDB bool) (res routeResul
 			}
 			want := hash.Hash(lab.RefRoot(model.Map()))
 			if !root.Equal(&want) {
-				sig := "c02/refhash-mismatch/" + tag + suffix(model)
+				raw := "c02/refhash-mismatch/" + tag + suffix(model)
+				sig := raw
 				if family != "" {
 					sig = family + "wrong-root"
 				}
-				return res, &failure{Sig: sig, Coarse: "wrong-root",
+				return res, &failure{Sig: sig, Raw: raw, Coarse: "wrong-root",
 					What: fmt.Sprintf("route %s step %d: commit root %s != reference %s for %d keys", spec.Name, step, root, want, model.Len()),
 					Step: step, RootA: root.String(), RootB: want.String(), At: lab.HexPairs(model),
 					Detail: "root returned by Commit (root_a) differs from the reference root of the contents at this commit (root_b)"}
@@ -782,30 +816,26 @@ func replayCheck(spec *routeSpec, hist []hop, logs []writelog.WriteLog, final *l
 		}
 		root, err := replayWriteLogs(logs, each)
 		if err != nil {
-			sig := "c02/route-error/" + name + "/" + spec.Backend + "/" + errClass(err)
+			raw := "c02/route-error/" + name + "/" + spec.Backend + "/cap-" + spec.cap.class + "/" + errClass(err)
+			sig := raw
 			if errors.Is(err, dbApi.ErrNodeNotFound) {
 				// The replay tree has the nop database and the default cache.
 				sig = "c02/nop-db-lost-node/" + classifyLostNode(logsAsHistory(logs))
 			}
 			// Write logs produced under an evicting value cache / a cache below the working set.
-			switch spec.cap.class {
-			case "tiny":
-				sig = "c02/cache-below-working-set/wrong-write-log"
-			case "fit", "fit2", "fitv":
-				sig = "c02/value-cache-eviction/wrong-write-log"
+			if fam := familyOf(spec.cap.class); fam != "" {
+				sig = fam + "wrong-write-log"
 			}
-			return &failure{Sig: sig, Coarse: "wrong-write-log", What: "replaying the write logs returned by route " + spec.Name + " failed: " + err.Error(),
+			return &failure{Sig: sig, Raw: raw, Coarse: "wrong-write-log", What: "replaying the write logs returned by route " + spec.Name + " failed: " + err.Error(),
 				Detail: err.Error(), At: lab.HexPairs(final)}
 		}
 		if !root.Equal(&want) {
-			sig := "c02/refhash-mismatch/" + name + "/" + spec.Backend + suffix(final)
-			switch spec.cap.class {
-			case "tiny":
-				sig = "c02/cache-below-working-set/wrong-write-log"
-			case "fit", "fit2", "fitv":
-				sig = "c02/value-cache-eviction/wrong-write-log"
+			raw := "c02/refhash-mismatch/" + name + "/" + spec.Backend + "/cap-" + spec.cap.class + suffix(final)
+			sig := raw
+			if fam := familyOf(spec.cap.class); fam != "" {
+				sig = fam + "wrong-write-log"
 			}
-			return &failure{Sig: sig, Coarse: "wrong-write-log", What: fmt.Sprintf("write-log replay root %s != reference root %s", root, want),
+			return &failure{Sig: sig, Raw: raw, Coarse: "wrong-write-log", What: fmt.Sprintf("write-log replay root %s != reference root %s", root, want),
 				RootA: root.String(), RootB: want.String(), At: lab.HexPairs(final), Detail: name + " of the write logs returned by the route's commits"}
 		}
 	}
@@ -896,27 +926,54 @@ func leaveReport(sig string, didShrink bool) {
 	sigMu.Unlock()
 }
 
+// unlimitedSpec is the same route with Capacity(0,0).
+func unlimitedSpec(spec *routeSpec) *routeSpec {
+	u := *spec
+	u.cap = capacities[1]
+	u.Capacity, u.CapClass, u.CapNodes, u.CapValues = u.cap.name, u.cap.class, 0, 0
+	return &u
+}
+
+// confirmFamily decides membership in a known-finding family. f.Sig is a family signature only
+// as a candidate (by the capacity class, see classOf/familyOf); it is kept iff the very same
+// history PASSES the same check when replayed once with Capacity(0,0) (no eviction at all), i.e.
+// the failure is caused by eviction. Otherwise the failure gets its ordinary signature, so a
+// defect that also breaks trees with unlimited caches can never hide in a family.
+func confirmFamily(spec *routeSpec, f *failure, pred func(*routeSpec, []hop) *failure) string {
+	if familyOf(spec.cap.class) == "" || !strings.HasPrefix(f.Sig, familyOf(spec.cap.class)) {
+		return f.Sig
+	}
+	if pred == nil {
+		return f.Raw
+	}
+	run.Count("family_candidates_replayed_with_unlimited_cache", 1)
+	if g := pred(unlimitedSpec(spec), spec.History); g != nil {
+		run.Count("family_candidates_failing_with_unlimited_cache_too", 1)
+		return f.Raw
+	}
+	return f.Sig
+}
+
 // report raises a violation for a failed history, with a shrunk history when affordable.
-func report(caseIdx int, set *lab.Model, ref hash.Hash, spec *routeSpec, f *failure, pred func([]hop) *failure) {
+func report(caseIdx int, set *lab.Model, ref hash.Hash, spec *routeSpec, f *failure, pred func(*routeSpec, []hop) *failure) {
 	w := caseWitness{Seed: run.Seed, Case: caseIdx, Contents: lab.HexPairs(set), RefRoot: ref.String(), Route: spec,
 		Step: f.Step, RootA: f.RootA, RootB: f.RootB, AtCommit: f.At, Detail: f.Detail}
+	sig := confirmFamily(spec, f, pred)
 	// A failure on a database-backed tree with the DEFAULT cache whose history contains the
 	// trigger of the value-size accounting underflow (overwrite of a committed leaf with a
 	// longer value, after which the cache evicts everything) is always shrunk; if the trigger
 	// survives in the minimal history the failure is filed under its own family.
 	underflowCandidate := spec.cap.class == "default" && spec.Backend != lab.BackendNop && f.Coarse != "" &&
 		strings.HasPrefix(classifyLostNode(spec.History), "after-overwrite")
-	entered := enterReport(f.Sig, underflowCandidate)
-	defer leaveReport(f.Sig, entered)
-	doShrink := entered && pred != nil
-	sig := f.Sig
-	if doShrink {
+	entered := enterReport(sig, underflowCandidate)
+	defer leaveReport(sig, entered)
+	if entered && pred != nil {
 		min := shrink(spec.History, func(h []hop) bool {
-			g := pred(h)
+			g := pred(spec, h)
 			return g != nil && g.Sig == f.Sig
 		})
 		w.Minimal = min
-		w.MinimalFailure = pred(min)
+		w.MinimalFailure = pred(spec, min)
 		if underflowCandidate && strings.HasPrefix(classifyLostNode(min), "after-overwrite") {
 			sig = "c02/value-size-underflow/" + f.Coarse
 		}
@@ -1215,7 +1272,7 @@ func sensitivity(caseIdx int, rng *rand.Rand, set *lab.Model, root hash.Hash) {
 }
 
 // ---------------------------------------------------------------------------
-// Canaries: fixed minimal witnesses of the open finding "node cache capacity below the working
+// Canary: a fixed minimal witness (badger backend, tree-level symptom) of the open finding "node cache capacity below the working
 // set of one operation", executed at start-up so that its signatures are reported by every run
 // independently of the seed. They go through the same classification rule as generated routes
 // (class "tiny" iff 0 < node capacity < 2D+4) and are silent once the defect is gone.
@@ -1241,41 +1298,42 @@ func canaryHistory(steps []canaryStep) []hop {
 
 func runCanaries() {
 	type canary struct {
-		name     string
-		backend  string
-		capName  string
-		startVer uint64
-		finalize bool
-		steps    []canaryStep
+		name        string
+		backend     string
+		nodes, vals uint64 // mkvs.Capacity(nodes, vals)
+		startVer    uint64
+		finalize    bool
+		reopen      bool
+		noWriteLog  bool
+		steps       []canaryStep
 	}
 	canaries := []canary{
-		{"tiny-cache-wrong-root", lab.BackendBadger, "n1v1", 1000, true, []canaryStep{
+		{"tiny-cache-wrong-root", lab.BackendBadger, 1, 1, 1000, true, false, false, []canaryStep{
 			{"ins", "61ff007f7f", "7f7f"}, {"ins", "7f618000", "6162"}, {"ins", "", "ffff61"}, {"commit", "", ""},
 			{"rem", "7f618000", ""}, {"commit", "", ""},
 		}},
-		{"tiny-cache-panic", lab.BackendPathBadger, "n1v1", 1000, true, []canaryStep{
-			{"ins", "010062010080", "62627f"}, {"ins", "ff", ""}, {"ins", "6200", "0062"}, {"commit", "", ""},
-			{"ins", "7f", "808080"}, {"commit", "", ""},
+		{"value-cache-wrong-root", lab.BackendBadger, 0, 200, 1000, false, true, false, []canaryStep{
+			{"ins", "7fff018001", "61"}, {"ins", "00", ""}, {"commit", "", ""},
+			{"ins", "0080", "62"}, {"rem", "7f000080ff", ""}, {"commit", "", ""},
 		}},
 	}
 	for ci, c := range canaries {
-		spec := &routeSpec{Name: "canary-" + c.name, Backend: c.backend, Style: "fixed", Batching: "fixed", Capacity: c.capName,
-			StartVer: c.startVer, Finalize: c.finalize, History: canaryHistory(c.steps)}
-		for _, cp := range capacities {
-			if cp.name == c.capName {
-				spec.cap = cp
-			}
-		}
-		spec.cap, spec.WorkingSetNodes = fitCapacity(spec.cap, spec.History)
+		spec := &routeSpec{Name: "canary-" + c.name, Backend: c.backend, Style: "fixed", Batching: "fixed", Capacity: "custom",
+			StartVer: c.startVer, Finalize: c.finalize, Reopen: c.reopen, NoWriteLog: c.noWriteLog, History: canaryHistory(c.steps)}
+		spec.cap, spec.WorkingSetNodes = fitCapacity(capacity{name: "custom", set: true, nodes: c.nodes, vals: c.vals}, spec.History)
 		spec.CapClass, spec.CapNodes, spec.CapValues = spec.cap.class, spec.cap.nodes, spec.cap.vals
 		run.Eval(1)
 		run.Count("canary_cases", 1)
-		_, f := runHistory(spec, spec.History, false, false)
+		pred := func(sp *routeSpec, h []hop) *failure {
+			_, g := runHistory(sp, h, false, false)
+			return g
+		}
+		f := pred(spec, spec.History)
 		if f == nil {
 			run.Count("canary_cases_passed", 1)
 			continue
 		}
-		run.Violation(f.Sig, "canary "+c.name+": "+f.What, caseWitness{Seed: run.Seed, Case: -1 - ci, Route: spec, Step: f.Step,
+		run.Violation(confirmFamily(spec, f, pred), "canary "+c.name+": "+f.What, caseWitness{Seed: run.Seed, Case: -1 - ci, Route: spec, Step: f.Step,
 			RootA: f.RootA, RootB: f.RootB, AtCommit: f.At, Detail: f.Detail, Minimal: spec.History, MinimalFailure: f})
 	}
 }
